@@ -114,7 +114,7 @@ Inductive op :=
 | Run (n : nat) (pre : files)      (* run_mode and, for a dask observation, compute at once; [pre] =
                                       files that appear in the new directory before the first write *)
 | Start (n : nat) (pre : files)    (* dask observation: run_mode only (lazy result kept) *)
-| Compute (i : nat).               (* compute the lazy result of the i-th Start *)
+| Compute (i : nat).               (* compute the lazy result of simulation i (counting Run and Start) *)
 
 (* what the lazy graph of a started dask observation holds on to *)
 Record pend := { p_dir : string; p_req : request; p_nruns : nat; p_ep : nat; p_live : bool }.
@@ -156,7 +156,9 @@ Definition step (m : mode) (T : tables) (excl : bool) (ts : string) (o : op)
       | Some (p, _, _) =>
           match flow m T ep (c_req (h_cfg st)) n pre with
           | (fs', rep, e) =>
-              ({| h_cfg := h_cfg st; h_cur := Some p; h_pend := h_pend st |},
+              ({| h_cfg := h_cfg st; h_cur := Some p;
+                  h_pend := (h_pend st ++ [{| p_dir := p; p_req := c_req (h_cfg st); p_nruns := n; p_ep := ep;
+                                              p_live := false |}])%list |},
                (p, fs') :: w, S ep,
                [{| r_ep := ep; r_dir := p; r_at := p; r_rep := rep; r_err := e; r_files := fs' |}])
           end
@@ -216,17 +218,17 @@ Definition init_state (c : cfg) : hstate := {| h_cfg := c; h_cur := None; h_pend
    Independent of the machinery above: the simulations a history starts, each with the request, folder
    and prefix in force when it was started. *)
 
-Record sim := { s_ep : nat; s_req : request; s_base : string; s_n : nat; s_pre : files; s_lazy : bool }.
+Record sim := { sm_ep : nat; sm_req : request; sm_base : string; sm_n : nat; sm_pre : files; sm_lazy : bool }.
 
 Fixpoint sims (ts : string) (ops : list op) (c : cfg) (ep : nat) : list sim :=
   match ops with
   | [] => []
   | Edit e :: rest => sims ts rest (apply_edit e c) ep
   | Run n pre :: rest =>
-      {| s_ep := ep; s_req := c_req c; s_base := base_name ts c; s_n := n; s_pre := pre; s_lazy := false |}
+      {| sm_ep := ep; sm_req := c_req c; sm_base := base_name ts c; sm_n := n; sm_pre := pre; sm_lazy := false |}
       :: sims ts rest c (S ep)
   | Start n pre :: rest =>
-      {| s_ep := ep; s_req := c_req c; s_base := base_name ts c; s_n := n; s_pre := pre; s_lazy := true |}
+      {| sm_ep := ep; sm_req := c_req c; sm_base := base_name ts c; sm_n := n; sm_pre := pre; sm_lazy := true |}
       :: sims ts rest c (S ep)
   | Compute _ :: rest => sims ts rest c ep
   end.
@@ -234,7 +236,7 @@ Fixpoint sims (ts : string) (ops : list op) (c : cfg) (ep : nat) : list sim :=
 Fixpoint find_sim (ep : nat) (l : list sim) : option sim :=
   match l with
   | [] => None
-  | s :: r => if Nat.eqb (s_ep s) ep then Some s else find_sim ep r
+  | s :: r => if Nat.eqb (sm_ep s) ep then Some s else find_sim ep r
   end.
 
 (* ------------------------------------------------------------------ specification (bool) *)
@@ -250,36 +252,56 @@ Fixpoint prefix_b (a b : string) : bool :=
 Definition is_cand (base d : string) (bound : nat) : bool :=
   existsb (fun k => String.eqb d (cand base k)) (seq 0 (S bound)).
 
-(* one finished simulation, judged against the request in force when it was started *)
-Definition rec_spec_ok (m : mode) (w0 : world) (ss : list sim) (r : runrec) : bool :=
-  match find_sim (r_ep r) ss with
-  | None => false
-  | Some s =>
-      String.eqb (r_at r) (r_dir r)                                   (* wrote into its own directory *)
-      && negb (mem (r_dir r) (wdirs w0))                              (* which did not exist before *)
-      && is_cand (s_base s) (r_dir r) (List.length w0 + List.length ss)   (* in the folder / with the prefix of that time *)
-      && spec_unchanged (s_pre s) (r_files r)
-      && match r_err r with
-         | Some _ => true
-         | None => spec_attributed (r_ep r) (r_rep r) (r_files r)
-                   && spec_complete (s_req s) (nruns_of m (s_n s)) (r_rep r)
-                   && spec_named m (r_rep r)
-         end
-  end.
+(* One finished simulation, judged against the request / folder / prefix in force when it was started.
+   The clauses are separate functions so that a failing case can be classified. *)
+Definition with_sim (ss : list sim) (r : runrec) (k : sim -> bool) : bool :=
+  match find_sim (r_ep r) ss with None => false | Some s => k s end.
+
+(* it wrote into the directory it created, which did not exist before and is a candidate of the folder
+   and prefix of that time *)
+Definition rec_dir_ok (w0 : world) (ss : list sim) (r : runrec) : bool :=
+  with_sim ss r (fun s =>
+    String.eqb (r_at r) (r_dir r)
+    && negb (mem (r_dir r) (wdirs w0))
+    && is_cand (sm_base s) (r_dir r) (List.length w0 + List.length ss)).
+
+Definition rec_unchanged_ok (ss : list sim) (r : runrec) : bool :=
+  with_sim ss r (fun s => spec_unchanged (sm_pre s) (r_files r)).
+
+Definition rec_attr_ok (r : runrec) : bool :=
+  match r_err r with Some _ => true | None => spec_attributed (r_ep r) (r_rep r) (r_files r) end.
+
+Definition rec_complete_ok (m : mode) (ss : list sim) (r : runrec) : bool :=
+  with_sim ss r (fun s =>
+    match r_err r with Some _ => true | None => spec_complete (sm_req s) (nruns_of m (sm_n s)) (r_rep r) end).
+
+Definition rec_named_ok (m : mode) (r : runrec) : bool :=
+  match r_err r with Some _ => true | None => spec_named m (r_rep r) end.
 
 Definition files_same (a b : files) : bool := same_set file_eqb a b.
+
+Definition hist_dirs_ok (w0 : world) (ss : list sim) (recs : list runrec) : bool :=
+  forallb (rec_dir_ok w0 ss) recs
+  && nodup_b (map r_dir recs)                                          (* pairwise distinct directories *)
+  && nodup_b (map (fun r => dec (r_ep r)) recs)                        (* one record per simulation *)
+  && forallb (fun s => sm_lazy s || existsb (fun r => Nat.eqb (r_ep r) (sm_ep s)) recs) ss.
+                                                                       (* every run_mode call is recorded *)
+
+Definition hist_unchanged_ok (w0 : world) (ss : list sim) (recs : list runrec) (wf : world) : bool :=
+  forallb (rec_unchanged_ok ss) recs
+  && forallb (fun x => match wget (fst x) wf with Some fs => files_same fs (snd x) | None => false end) w0
+                                                                       (* nothing that existed was touched *)
+  && forallb (fun r => match wget (r_at r) wf with Some fs => files_same fs (r_files r) | None => false end) recs.
+                                                                       (* later simulations left earlier ones alone *)
 
 Definition hist_spec_ok (m : mode) (ts : string) (c : cfg) (w0 : world) (ops : list op)
            (recs : list runrec) (wf : world) : bool :=
   let ss := sims ts ops c 0 in
-  forallb (rec_spec_ok m w0 ss) recs
-  && nodup_b (map r_dir recs)                                          (* pairwise distinct directories *)
-  && nodup_b (map (fun r => dec (r_ep r)) recs)                        (* one record per simulation *)
-  && forallb (fun s => s_lazy s || existsb (fun r => Nat.eqb (r_ep r) (s_ep s)) recs) ss   (* every run_mode call is recorded *)
-  && forallb (fun x => match wget (fst x) wf with Some fs => files_same fs (snd x) | None => false end) w0
-                                                                       (* nothing that existed was touched *)
-  && forallb (fun r => match wget (r_dir r) wf with Some fs => files_same fs (r_files r) | None => false end) recs.
-                                                                       (* later simulations left earlier ones alone *)
+  hist_dirs_ok w0 ss recs
+  && hist_unchanged_ok w0 ss recs wf
+  && forallb rec_attr_ok recs
+  && forallb (rec_complete_ok m ss) recs
+  && forallb (rec_named_ok m) recs.
 
 (* ------------------------------------------------------------------ correspondence cases *)
 
@@ -306,6 +328,8 @@ Definition hist_model_ok (T : tables) (excl : bool) (c : hist_case) : bool :=
   match run_hist (hc_mode c) T excl (hc_ts c) (hc_ops c) (init_state (hc_cfg c)) (hc_world c) 0 with
   | (wf, recs) => list_eqb rec_eqb recs (hc_recs c) && world_eqb wf (hc_final c)
   end.
+
+Definition hc_sims (c : hist_case) : list sim := sims (hc_ts c) (hc_ops c) (hc_cfg c) 0.
 
 Definition hist_case_spec_ok (c : hist_case) : bool :=
   hist_spec_ok (hc_mode c) (hc_ts c) (hc_cfg c) (hc_world c) (hc_ops c) (hc_recs c) (hc_final c).
